@@ -74,6 +74,15 @@ InCycle(d, t) == t \in TaskNames(d) /\ t \in ReachFrom(d, Succ(d, t), {})
 IsSplit(d, x) == ~IsJoin(d, x) /\ NPrev(d, x) > 1            \* engine commands included
 Reachable(d)  == ReachFrom(d, Roots(d), {})
 
+(* --- static data-flow facts ------------------------------------------------------------- *)
+PubSites(d, v) == {<<t, i>> \in TaskNames(d) \X (1..4) :
+                     i <= Len(d.tasks[t].next) /\ \E k \in 1..Len(d.tasks[t].next[i].pub) : d.tasks[t].next[i].pub[k][1] = v}
+Ordered(d, a, b) == a \in ReachFrom(d, Succ(d, b), {}) \/ b \in ReachFrom(d, Succ(d, a), {})
+(* v may be written by two causally unordered branches (static over-approximation) *)
+ConcurrentlyWritten(d, v) ==
+  \E s1, s2 \in PubSites(d, v) : s1 # s2 /\ (s1[1] = s2[1] \/ ~Ordered(d, s1[1], s2[1]))
+DepVar(e) == IF e.k \in {"ctx", "inc"} THEN {e.v} ELSE {}
+
 (* --- denotation of the abstract expression language ------------------------------------- *)
 EvalCond(c, st, res, ctx) ==                         \* "T" | "F" | "E"
   LET b(x) == IF x THEN "T" ELSE "F" IN
